@@ -26,138 +26,181 @@ from . import invalidate
 AS = 'mystic.abstract_solver:AbstractSolver'
 
 
+def _decided(atom, lits):
+    """True / False / None: what the path literals entail about `atom` (truth table over their atoms; `is not` read as not `is`)"""
+    import itertools
+    from .. import pathcond as PC
+
+    def norm(t_):
+        if isinstance(t_, tuple) and t_ and t_[0] == 'cmp' and t_[1] == 'isnot':
+            return ('not', ('cmp', 'is') + t_[2:])
+        if isinstance(t_, tuple) and t_ and t_[0] in ('and', 'or', 'not'):
+            return (t_[0],) + tuple(norm(x) for x in t_[1:])
+        return t_
+    fs = [norm(c) if tr else ('not', norm(c)) for c, tr in lits if not (c[0] == 'const')]
+    atoms = [atom]
+    for f_ in fs:
+        for a in PC.leaves(f_):
+            if a not in atoms:
+                atoms.append(a)
+    if len(atoms) > 12:
+        return None
+    seen = set()
+    for bits in itertools.product((False, True), repeat=len(atoms)):
+        val = dict(zip(atoms, bits))
+        if all(PC.ev(f_, val) for f_ in fs):
+            seen.add(val[atom])
+    return seen.pop() if len(seen) == 1 else None
+
+
 @rule('C02.a', min_instances=4)
 def the_gate(ctx):
-    """wrap_bounds: the target is reachable only through the false branch of a predicate that is true for every outside ordering; the true branch returns inf"""
+    """wrap_bounds (roles from the data flow, not from names): in the gated wrapper the target is reachable only through the false branch of a predicate over (x, lower, upper) that is true for every ordering with a coordinate outside [lower, upper], the true branch returns inf and the target receives the tested x; lower / upper - whatever the closure variables are called - hold the caller's own min / max (asarray is transparent) or an all -inf / +inf default only where that bound is None; the un-gated wrapper is defined only where both bounds are None"""
     outer = ctx.func('mystic.tools:wrap_bounds')
-    f = ctx.func('mystic.tools:wrap_bounds.function_wrapper')
     tgt = outer.args()[0]
-    x = f.args()[0]
-    paths = enumerate_paths(f.node)
-    ctx.stats['paths_enumerated'] += len(paths)
-    X, MIN, MAX = ('name', x), ('name', 'min'), ('name', 'max')
-    n_called = 0
-    for p in paths:
-        calls_t = []
-        b = T.Builder()
-        conds = []
-        ret = None
-        for e in p.events:
-            if e[0] == 'cond':
-                conds.append((T.simp(b.t(e[1])), e[2], e[1]))
-            elif e[0] == 'stmt':
-                for c in calls_where(e[1], lambda c: isinstance(c.func, ast.Name) and c.func.id == tgt):
-                    calls_t.append((c, list(conds)))
-                if isinstance(e[1], ast.Return) and e[1].value is not None:
-                    ret = T.simp(b.t(e[1].value))
-                elif isinstance(e[1], ast.Assign) and isinstance(e[1].targets[0], ast.Name) and e[1].targets[0].id == x:
-                    ctx.bad('wrap_bounds.function_wrapper#x', 'the gate wrapper rewrites its argument before testing/forwarding it', f, e[1])
-        if calls_t:
-            n_called += 1
-            c, cs = calls_t[0]
-            arg_ok = len(c.args) == 1 and isinstance(c.args[0], ast.Name) and c.args[0].id == x
-            ctx.check(arg_ok, 'wrap_bounds.function_wrapper#forward', 'target receives the tested x',
-                      'the gated target is called with %s, not with the vector that was tested' % unparse(c), f, c)
-            gate = [(tt, tr, nd) for tt, tr, nd in cs if tr is False and (T.show(MIN) in T.show(tt) or T.show(MAX) in T.show(tt))]
-            if not gate:
-                ctx.bad('wrap_bounds.function_wrapper#gate', 'the target is reachable without passing the bounds test: %s' % p.describe(6), f, c)
+    pmin, pmax = outer.args()[1], outer.args()[2]
+    defs = [d for d in walk_no_nested(outer.node, include_lambda=False) if isinstance(d, ast.FunctionDef) and d is not outer.node
+            and any(isinstance(n, ast.Call) and isinstance(n.func, ast.Name) and n.func.id == tgt for n in ast.walk(d))]
+    ctx.need(defs, 'wrap_bounds: no nested wrapper calls the target')
+    info = {}
+    for d in defs:
+        x = d.args.args[0].arg if d.args.args else None
+        ctx.need(x is not None, 'wrap_bounds: wrapper without a parameter')
+        X = ('name', x)
+        paths = enumerate_paths(d)
+        ctx.stats['paths_enumerated'] += len(paths)
+        gates, plain_calls, inf_rets, fwd_bad, rewrites = [], 0, [], None, None
+        for p in paths:
+            b = T.Builder()
+            conds = []
+            called = None
+            ret = None
+            for e in p.events:
+                if e[0] == 'cond':
+                    conds.append((T.simp(b.t(e[1])), e[2], e[1]))
+                elif e[0] == 'stmt':
+                    st = e[1]
+                    for c in calls_where(st, lambda c: isinstance(c.func, ast.Name) and c.func.id == tgt):
+                        called = (c, list(conds), T.simp(b.t(c.args[0])) if len(c.args) == 1 else None)
+                    if isinstance(st, ast.Return) and st.value is not None:
+                        ret = T.simp(b.t(st.value))
+                    elif isinstance(st, ast.Assign) and len(st.targets) == 1 and isinstance(st.targets[0], ast.Name):
+                        if st.targets[0].id == x:
+                            rewrites = st
+                        b.exec_stmt(st)
+            if called:
+                c, cs, arg = called
+                if arg != X:
+                    fwd_bad = c
+                g = [(tt, nd) for tt, tr, nd in cs if tr is False and any(isinstance(q, tuple) and q and q[0] == 'cmp' and X in (q[2], q[3]) for q in T.subterms(tt))]
+                if g:
+                    gates.append((g[0][0], g[0][1], c, p))
+                else:
+                    plain_calls += 1
+                    gates.append((None, None, c, p))
+            elif p.exit == 'return':
+                inf_rets.append((ret, p))
+        info[d] = dict(x=x, gates=gates, inf_rets=inf_rets, fwd_bad=fwd_bad, rewrites=rewrites, gated=any(g[0] is not None for g in gates))
+    gated = [d for d in defs if info[d]['gated']]
+    plain = [d for d in defs if not info[d]['gated']]
+    ctx.need(gated, 'wrap_bounds: no wrapper tests its argument against the bounds')
+    roles = {}
+    for d in gated:
+        I = info[d]
+        X = ('name', I['x'])
+        label = 'wrap_bounds.%s' % d.name
+        if I['rewrites'] is not None:
+            ctx.bad(label + '#x', 'the gate wrapper rewrites its argument before testing/forwarding it', outer, I['rewrites'])
+        ctx.check(I['fwd_bad'] is None, label + '#forward', 'target receives the tested x', 'the gated target is called with something else than the vector that was tested', outer, I['fwd_bad'] or d)
+        for tt, nd, c, p in I['gates']:
+            if tt is None:
+                ctx.bad(label + '#gate', 'the target is reachable without passing the bounds test: %s' % p.describe(6), outer, c)
                 continue
-            tt = gate[0][0]
-            rows, okall = [], True
-            for rank in ordabs.weak_orderings([X, MIN, MAX]):
-                if rank[MIN] > rank[MAX]:
+            others = []
+            for q in T.subterms(tt):
+                if isinstance(q, tuple) and q and q[0] == 'cmp' and X in (q[2], q[3]):
+                    o = q[3] if q[2] == X else q[2]
+                    if o not in others:
+                        others.append(o)
+            if len(others) == 1:
+                ctx.bad(label + '#gate', 'the gate %s compares x with one bound only: a coordinate beyond the other bound reaches the target' % T.show(tt)[:80], outer, nd)
+                continue
+            ctx.need(len(others) == 2 and all(o[0] == 'name' for o in others), 'wrap_bounds: the gate %s does not compare x with two closure variables' % T.show(tt)[:80])
+            roles.setdefault(d, set()).update(o[1] for o in others)
+            info[d].setdefault('gate_terms', []).append((tt, nd, others))
+        for ret, p in I['inf_rets']:
+            ctx.check(ret == ('name', 'inf') or ret == ('const', 'inf'), label + '#inf', 'gate true -> returns inf without calling the target',
+                      'when the gate fires the wrapper returns %s' % (T.show(ret) if ret else None), outer, p.exit_node)
+    # what the closure variables hold: paths of wrap_bounds up to the definition of each wrapper
+    opaths = enumerate_paths(outer.node, relevant=lambda n: True)
+    ctx.stats['paths_enumerated'] += len(opaths)
+    none_min = ('cmp', 'is', ('name', pmin), ('const', None))
+    none_max = ('cmp', 'is', ('name', pmax), ('const', None))
+    inf_t = ('name', 'inf')
+    role_of = {}        # closure name -> 'lower' | 'upper'
+    n_g = n_u = 0
+    for p in opaths:
+        reached = [e[1] for e in p.events if e[0] == 'stmt' and e[1] in defs]
+        if not reached:
+            continue
+        # the wrapper this path hands out: the one it returns (by name), i.e. the last definition executed
+        d = reached[-1]
+        k = max(i_ for i_, e in enumerate(p.events) if e[0] == 'stmt' and e[1] is d)
+        b, conds = symbolic_run(_Prefix(p.events[:k]))
+        lits = [(c, tr) for c, tr, _ in conds]
+        if any(c[0] == 'const' and isinstance(c[1], bool) and c[1] != tr for c, tr in lits):
+            continue          # a flag (`bounds = False`) contradicts the branch taken: infeasible
+        if d in plain:
+            n_u += 1
+            ctx.check(_decided(none_min, lits) is True and _decided(none_max, lits) is True, 'wrap_bounds#unbounded',
+                      'the pass-through wrapper is defined only where min is None and max is None',
+                      'the un-gated wrapper is selected on a path that has not established that both bounds are None: %s' % p.describe(6), outer, d)
+            continue
+        n_g += 1
+        for name in sorted(roles.get(d, ())):
+            v = T.simp(b.env.get(name, ('name', name)))
+            verdict = None
+            for pname, atom, sign, role in ((pmin, none_min, -1, 'lower'), (pmax, none_max, 1, 'upper')):
+                want = inf_t if sign > 0 else T.simp(T.pneg(inf_t))
+                if v == ('name', pname) and _decided(atom, lits) is False:
+                    verdict = role
+                elif v[0] == 'listcomp' and len(v[1]) == 1 and v[1][0] == want and _decided(atom, lits) is True:
+                    verdict = role
+            if verdict is None:
+                ctx.bad('wrap_bounds#closure-' + name, 'the gate compares with %s = %s, which is neither the caller\'s own bound nor the infinite default for a missing '
+                        'bound (a finite bound can be lost): %s' % (name, T.show(v)[:70], p.describe(5)), outer, d, statement='gate closes over %s = %s' % (name, T.show(v)[:60]))
+                continue
+            if role_of.setdefault(name, verdict) != verdict:
+                ctx.bad('wrap_bounds#closure-' + name, '%s holds the lower bound on one path and the upper bound on another' % name, outer, d)
+            else:
+                ctx.ok('wrap_bounds#closure-' + name, '%s = the caller\'s %s bound (or its infinite default where it is None)' % (name, verdict), outer, d)
+    ctx.need(n_g >= 1, 'wrap_bounds: no path defines the gated wrapper')
+    if plain:
+        ctx.need(n_u >= 1, 'wrap_bounds: the pass-through wrapper is never reached')
+    # the gate predicate over (x, lower, upper)
+    for d in gated:
+        X = ('name', info[d]['x'])
+        for tt, nd, others in info[d].get('gate_terms', []):
+            lo = [o for o in others if role_of.get(o[1]) == 'lower']
+            hi = [o for o in others if role_of.get(o[1]) == 'upper']
+            if len(lo) != 1 or len(hi) != 1:
+                continue       # already reported above
+            LO, HI = lo[0], hi[0]
+            rows, okall = 0, True
+            for rank in ordabs.weak_orderings([X, LO, HI]):
+                if rank[LO] > rank[HI]:
                     continue
-                outside = rank[X] < rank[MIN] or rank[X] > rank[MAX]
+                outside = rank[X] < rank[LO] or rank[X] > rank[HI]
                 try:
                     v = ordabs.evaluate(tt, rank)
                 except ordabs.Unknown as ex:
                     raise AnalysisError('cannot order-evaluate the gate predicate %s' % ex)
                 ctx.stats['orderings_enumerated'] += 1
-                rows.append((tuple(sorted(rank.items(), key=lambda kv: repr(kv[0]))), v))
+                rows += 1
                 if outside and not v:
                     okall = False
-            ctx.check(okall, 'wrap_bounds.function_wrapper#gate', 'gate %s is true for all %d orderings with x outside [min,max]' % (T.show(tt), len(rows)),
-                      'the gate predicate %s is false for an ordering with the coordinate outside [min,max]' % T.show(tt), f, gate[0][2])
-        else:
-            # gate fired: must return inf
-            if p.exit == 'return':
-                ctx.check(ret == ('name', 'inf') or ret == ('const', 'inf'), 'wrap_bounds.function_wrapper#inf', 'gate true -> returns inf without calling the target',
-                          'when the gate fires the wrapper returns %s' % (T.show(ret) if ret else None), f, p.exit_node)
-    ctx.need(n_called >= 1, 'no path of the gate wrapper calls the target')
-    # which bounds the gate closes over: along every path of wrap_bounds that defines the gated wrapper, the closure
-    # variables the gate compares with are the caller's own min / max (asarray is transparent), or an all -inf / +inf
-    # default on a path that has established that this bound is None; the un-gated wrapper is defined only where both are None
-    pmin, pmax = outer.args()[1], outer.args()[2]
-    gated_defs = [d for d in walk_no_nested(outer.node, include_lambda=False) if isinstance(d, ast.FunctionDef) and d is not outer.node
-                  and any(isinstance(n, ast.Call) and isinstance(n.func, ast.Name) and n.func.id == tgt for n in ast.walk(d))]
-    ctx.need(gated_defs, 'wrap_bounds: wrapper definitions not found')
-    opaths = enumerate_paths(outer.node, relevant=lambda n: True)
-    ctx.stats['paths_enumerated'] += len(opaths)
-    n_g = n_u = 0
-    for p in opaths:
-        defs = [e[1] for e in p.events if e[0] == 'stmt' and e[1] in gated_defs]
-        if not defs:
-            continue
-        d = defs[-1]
-        cut = [e for e in p.events]
-        k = max(i_ for i_, e in enumerate(cut) if e[0] == 'stmt' and e[1] is d)
-        b, conds = symbolic_run(_Prefix(cut[:k]))
-        lits = set((c, tr) for c, tr, _ in conds)
-        is_gate = d is f.node
-        none_min = ('cmp', 'is', ('name', pmin), ('const', None))
-        none_max = ('cmp', 'is', ('name', pmax), ('const', None))
-
-        # constant propagation of flags (`bounds = True/False`): drop paths whose tests contradict the known value
-        if any(c[0] == 'const' and isinstance(c[1], bool) and c[1] != tr for c, tr in lits):
-            continue
-
-        def decided(atom, lits=lits):
-            """True / False / None: what the path literals entail about `param is None` (truth table over their atoms)"""
-            import itertools
-            from .. import pathcond as PC
-
-            def norm(t_):
-                if isinstance(t_, tuple) and t_ and t_[0] == 'cmp' and t_[1] == 'isnot':
-                    return ('not', ('cmp', 'is') + t_[2:])
-                if isinstance(t_, tuple) and t_ and t_[0] in ('and', 'or', 'not'):
-                    return (t_[0],) + tuple(norm(x) for x in t_[1:])
-                return t_
-            fs = [norm(c) if tr else ('not', norm(c)) for c, tr in lits if not (c[0] == 'const')]
-            atoms = [atom]
-            for f_ in fs:
-                for a in PC.leaves(f_):
-                    if a not in atoms:
-                        atoms.append(a)
-            if len(atoms) > 12:
-                return None
-            seen = set()
-            for bits in itertools.product((False, True), repeat=len(atoms)):
-                val = dict(zip(atoms, bits))
-                if all(PC.ev(f_, val) for f_ in fs):
-                    seen.add(val[atom])
-            return seen.pop() if len(seen) == 1 else None
-        if not is_gate:
-            n_u += 1
-            ctx.check(decided(none_min) is True and decided(none_max) is True, 'wrap_bounds#unbounded',
-                      'the pass-through wrapper is defined only where min is None and max is None',
-                      'the un-gated wrapper is selected on a path that has not established that both bounds are None: %s' % p.describe(6), outer, d)
-            continue
-        n_g += 1
-        for pname, atom, sign in ((pmin, none_min, -1), (pmax, none_max, 1)):
-            v = T.simp(b.env.get(pname, ('name', pname)))
-            if v == ('name', pname):
-                ctx.check(decided(atom) is False, 'wrap_bounds#closure-' + pname, 'the gate compares with the caller\'s own %s' % pname,
-                          'the gate closes over %s on a path where it may be None: %s' % (pname, p.describe(6)), outer, d)
-                continue
-            inf_t = ('name', 'inf')
-            want = inf_t if sign > 0 else T.simp(T.pneg(inf_t))
-            leaves = [x for x in T.subterms(v) if isinstance(x, tuple) and x and x[0] == 'name' and x[1] in (pmin, pmax)]
-            is_default = v[0] == 'listcomp' and len(v[1]) == 1 and v[1][0] == want
-            ctx.check(is_default and decided(atom) is True, 'wrap_bounds#closure-' + pname,
-                      'a missing %s defaults to all %sinf (only where %s is None)' % (pname, '-' if sign < 0 else '+', pname),
-                      'the gate compares with %s = %s instead of the caller\'s %s (a finite bound can be lost): %s' % (
-                          pname, T.show(v)[:70], pname, p.describe(5)), outer, d, statement='gate closes over %s = %s' % (pname, T.show(v)[:60]))
-    ctx.need(n_g >= 3 and n_u >= 1, 'wrap_bounds: expected >= 3 paths defining the gate and 1 defining the pass-through, found %d / %d' % (n_g, n_u))
+            ctx.check(okall, 'wrap_bounds.%s#gate' % d.name, 'gate %s is true for all %d orderings with x outside [lower, upper]' % (T.show(tt)[:60], rows),
+                      'the gate predicate %s is false for an ordering with the coordinate outside [lower, upper]' % T.show(tt), outer, nd)
 
 
 class _Prefix(object):
